@@ -7,6 +7,17 @@ REPO = os.environ.get('MATRIX_REPO', '/repo')
 ENV = dict(os.environ, VERIF_REPO=REPO)
 sys.path.insert(0, 'vc'); sys.path.insert(0, 'vc/units')
 import registry
+# BENIGN_TOUCHED=1: a refactoring is run only against the properties that have a function under contract (or an extracted item) in a file it touches -- what
+# the matrix measures is whether CONTRACTS survive behaviour-preserving edits; the other properties are recorded as 'skipped'
+TOUCHED = os.environ.get('BENIGN_TOUCHED') == '1'
+FILES = {}
+if TOUCHED:
+    for prop in registry.PROPERTIES:
+        try:
+            ev = json.load(open('evidence/%s.json' % prop))
+            FILES[prop] = {f.get('file') for f in ev['coverage'].get('functions_under_contract', []) if f.get('file')}
+        except Exception:
+            FILES[prop] = None
 assert subprocess.run('git -C %s status --porcelain' % REPO, shell=True, capture_output=True, text=True).stdout.strip() == '', REPO + ' not clean'
 out = {}
 try:
@@ -21,7 +32,11 @@ for base in sys.argv[1:]:
             out[name] = dict(error='patch does not apply'); continue
         res = {}
         try:
+            touched = set(re.findall(r'^\+\+\+ b/(\S+)', open(d).read(), re.M))
             for prop in sorted(registry.PROPERTIES):
+                if TOUCHED and FILES.get(prop) is not None and not (FILES[prop] & touched):
+                    res[prop] = 'skipped'
+                    continue
                 r = subprocess.run(['./check', prop], capture_output=True, text=True, timeout=1500, env=ENV)
                 res[prop] = r.returncode
                 if r.returncode == 1:
